@@ -234,7 +234,7 @@ func init() {
 			"field values incl. Go dynamic type (float bit-exact), runtime-error class and line:column compared. Fixed list: every operator x operand-kind cell over a 29-value pool " +
 			"(via literal, variable and field) and all ordered operator triples; then random typed expression trees (depth <= 5, hostile literal spellings, redundant parentheses, assignments in operands). " +
 			"distinct = hash of source text; non-trivial = reference verdict specified (not in a DESIGN §5.3 zone) and >= 1 operator executed",
-		Assumptions: []string{"DESIGN §5.4 is the language definition; §5.3 zones give no verdict", "fmt and strconv of the Go standard library format/parse numbers as documented"},
+		Assumptions:   []string{"DESIGN §5.4 is the language definition; §5.3 zones give no verdict", "fmt and strconv of the Go standard library format/parse numbers as documented"},
 		MinNontrivial: 1000,
 		Run: func(c *core.Ctx) {
 			runRefProfile(c, &refProfile{
